@@ -185,7 +185,7 @@ class AppSim:
     # -- express ----------------------------------------------------------------------------------
     def express(self, name, lifetime=4000, can_be_prefix=False, must_be_fresh=False, vlat=0.0, verdict=True,
                 validator='default', app_param=None, signer=None, nonce=1234, await_after=0.0, shared_param=False,
-                falsy_validator=False, gate=None):
+                falsy_validator=False, gate=None, send_fails=False):
         """name: list of component bytes.  vlat seconds.  verdict: ValidResult (v2) / truthy (legacy)."""
         h = Expressed(len(self.expressed))
         self.expressed.append(h)
@@ -256,6 +256,14 @@ class AppSim:
         def _do():
             before = len(self.face.sent)
             h.t0_ms = vl.now_ms()
+            if send_fails:
+                # the transport refuses this one packet (a datagram too long for the link, a transient OSError): the caller gets
+                # the transport's exception, and the Interest - which never left - is not pending
+                plain_send = self.face.send
+
+                def failing_send(_data):
+                    raise OSError(90, 'Message too long')
+                self.face.send = failing_send
             try:
                 if self.frontend == 'v2':
                     coro = self.app.express(name, _validator, app_param=app_param, signer=signer, interest_param=_param())
@@ -267,6 +275,9 @@ class AppSim:
             except Exception as e:
                 h.express_error = e
                 return
+            finally:
+                if send_fails:
+                    self.face.send = plain_send
             if len(self.face.sent) > before:
                 h.wire = self.face.sent[before]
             if await_after > 0:
